@@ -63,6 +63,11 @@ CLAIMS = {
             'and callback adapter, the CLI output type) returns Ok only after forwarding the flush to the wrapped writer and reports its failure; the '
             'pass-through layers own no byte container; the compression layer flushes the brotli compressor; the fail-safe decompressor must call the '
             'decoder before reporting end of input (one genuine defect recorded as known finding). The number of bytes recovered is not decided.'),
+    'C13': (TECH_RULES + ' + raw read/write census', '§4 C13',
+            'Decides over every raw Write::write / Read::read call of the workspace: accepted and read counts are returned or accumulated, never dropped or '
+            'replaced by the requested length; no raw write outside pass-through `impl Write::write` bodies (all other transfers use the looping forms); '
+            'chunks handed to the cipher are complete reads on a bounded take; buffer contents are consumed only up to the count read; decoder-produced '
+            'zero counts must not be returned mid-stream (one genuine defect recorded as known finding). Equality of the resulting archives is not decided.'),
 }
 
 NOT_APPLICABLE = {
